@@ -232,6 +232,9 @@ CHECKS["C03"] = dict(
         "BAM writing is covered by C16.",
    technique="TLA+ writer state machine model-checked by TLC; every completed behaviour (table x call history) replayed into bnp.open(...).write on plain/gzip/stream targets and read back",
    design="6/C03")
+EXTRA = {'C03': 'Binding B: files generated from the per-format grammars of C02 are read eagerly and written again; TLC decides written = Serialise(Parse(text)) (Trace_C03).', 'C05': 'Table.tla also observes single rows t[j] with Python and NumPy integers; sources include a BED12 file with list-valued columns.', 'C06': 'Encoding.tla also admits the empty text and the actions Rewrap (EncodedArray(encoded, B)) and Collect (a list of arrays of two encodings).', 'C07': 'Further observations: str_equal against a row of the array and decode / string_array of any view.', 'C08': 'Also: an empty interval inserted anywhere covers nothing (EmptyCoversNothing) and the all-against-all Jaccard matrix of three sets.', 'C10': 'Also: a streamed (per-chromosome) track under in-memory intervals in any order within a chromosome, and Binned.tla (binned counting over the genome: Count, CountsRight, Conserved) replayed on BinnedGenome.', 'C11': 'Graph.tla models the computation graph itself (call stack explicit: Construct, PullArg, Advance, Eval, IssuePull, Collect, Finish; invariants NoAssert, LockStep, InStep, AllLevel, Final); 11 graph shapes x datasets x cut sets are replayed on real StreamNode/ComputationNode/ReductionNode objects through compute().', 'C12': "Streams whose chromosome column is already encoded with the genome's own string encoding are driven as well.", 'C13': 'Counting is additive (CountsOfRepeat, TLC-checked), so a few states stand for inputs of more than a million windows.', 'C14': 'Also: a history of extractions on one GenomicSequence (single intervals, all at once, the whole contig) and every order of the three encodings, each in a freshly forked process.', 'C15': 'Classes also include a non-numeric value after rows with explicitly signed numbers and two records joined by a tab.', 'C16': 'Also: piecewise writes with an empty first piece, every field of a selection after it was written, and table programs (selections, selection of a selection, concatenation; lazy and eager).', 'C17': 'Also: a 12 MB FASTA spanning several reader chunks checked against the arithmetic index (OffsetsAgree ties it to the byte-level definition) and whole contigs held while others are fetched.', 'C18': 'Float texts include a leading decimal point; integer lists are also presented as row selections of another ragged array.', 'C19': 'Table types include one with a nested-table column two levels deep.', 'C20': 'Every registered call is also made on arguments nobody has inspected (content before the call taken from an identical twin), incl. lazily indexed views.', 'C02': 'Further reading modes: a reversed selection before any column is parsed, the whole table after a look at its first rows, sliced chunks concatenated; typed INFO likewise.'}
+for _k, _v in EXTRA.items():
+    CHECKS[_k]["text"] = CHECKS[_k]["text"] + " " + _v
 PENDING = {}
 def main():
     props = [json.loads(l)["id"] for l in open(os.path.join(HERE, "properties.jsonl"))]
